@@ -52,6 +52,8 @@ def cases(ctx):
         if j % 2 == 0:
             yield {"op": "acyclic_unroll_acyclic", "c": proj(c), "k": 0, "src": "G3"}
         yield {"op": "insert_registers", "c": proj(c), "k": r.choice([1, 1, 2, 3]), "src": "G3"}
+        if j % 4 == 0:
+            yield {"op": "insert_registers", "c": proj(c), "k": r.choice([1, 2]), "latch": True, "src": "G3"}
     # FO: one driver (input / gate / inverter / output gate) with fan-out 1..9, k = 2..5
     for drv in ("input", "and", "not", "outgate", "const"):
         for m in range(1, 10):
@@ -109,7 +111,10 @@ def run_case(case, ctx):
         elif case["op"] == "acyclic_unroll_acyclic":
             r = cg.tx.acyclic_unroll(c)
         elif case["op"] == "insert_registers":
-            r = cg.tx.insert_registers(c, case["k"])
+            if case.get("latch"):   # a cell with d and q only: no other io to connect (explicit empty map)
+                r = cg.tx.insert_registers(c, case["k"], ff=cg.BlackBox("lat", ["d"], ["q"]), other_flop_io={})
+            else:
+                r = cg.tx.insert_registers(c, case["k"])
     except Exception as e:  # recorded, judged by the specification
         exc = type(e).__name__
     ev = {"kind": case["op"], "k": case["k"], "c": case["c"], "exc": exc, "r": proj(r) if r is not None else {}}
